@@ -13,6 +13,10 @@ class Opaque:
     def __repr__(s): return f"<?{s.why}>"
 
 
+class OpaqueNum(Opaque):
+    """an unmodelled *numeric* value (failed arithmetic): certainly not None / not a container."""
+
+
 class Mismatch(Opaque):
     """definitely not the expected idiom (all parts recognised, but different)."""
 
@@ -228,7 +232,7 @@ def scal_op(op, a, b):
         if op == "-": return xa - xb
         if op == "*": return xa * xb
         if op == "/":
-            if xb.iszero(): return Opaque("division by literal zero")
+            if xb.iszero(): return OpaqueNum("division by literal zero")
             return xa / xb
         if op == "**":
             c = xb.constval()
@@ -240,7 +244,7 @@ def scal_op(op, a, b):
         if op == "%":
             return mk_fn("mod", [xa, xb])
     except Unknown as ex:
-        return Opaque(str(ex))
+        return OpaqueNum(str(ex))
     return Opaque(f"operator {op}")
 
 
@@ -264,7 +268,7 @@ def lift1(f, a):
         xx = to_x(x)
         if xx is None: return Opaque("non-numeric operand")
         try: return f(xx)
-        except Unknown as ex: return Opaque(str(ex))
+        except Unknown as ex: return OpaqueNum(str(ex))
     return pv_apply(g, a)
 
 
